@@ -130,32 +130,27 @@ func c08Run(c c08Case) (string, error) {
 	}
 	// position features at the elements of the document (UTF-16 column of the element's first character + 1)
 	lines := strings.Split(text, "\n")
-	u16col := func(line, runeCol int) int { // rune column (1-based) -> UTF-16 character (0-based)
-		if line-1 >= len(lines) {
+	// byte offset inside the line (taken from the AST's byte offsets, which do not depend on the unit
+	// columns are counted in) -> UTF-16 character (0-based)
+	u16col := func(line, byteCol int) int {
+		if line-1 >= len(lines) || byteCol < 0 {
 			return 0
 		}
-		n, c := 0, 0
-		for _, r := range lines[line-1] {
-			if n == runeCol-1 {
-				break
-			}
-			n++
-			if r >= 0x10000 {
-				c += 2
-			} else {
-				c++
-			}
+		ln := lines[line-1]
+		if byteCol > len(ln) {
+			byteCol = len(ln)
 		}
-		return c
+		return utf16Len(ln[:byteCol])
 	}
+	inLine := func(line, offset int) int { return offset - lineStartOffset(text, line) }
 	type el struct {
-		line, col int // 1-based line, rune column of the element start
+		line, col int // 1-based line, byte offset of the element start inside its line
 		text      string
 		kind      string
 	}
 	var els []el
 	for _, t := range j.Transactions {
-		els = append(els, el{t.Date.Range.Start.Line, t.Date.Range.Start.Column, lines[t.Date.Range.Start.Line-1][t.Date.Range.Start.Offset-lineStartOffset(text, t.Date.Range.Start.Line) : t.Date.Range.End.Offset-lineStartOffset(text, t.Date.Range.Start.Line)], "date"})
+		els = append(els, el{t.Date.Range.Start.Line, inLine(t.Date.Range.Start.Line, t.Date.Range.Start.Offset), lines[t.Date.Range.Start.Line-1][t.Date.Range.Start.Offset-lineStartOffset(text, t.Date.Range.Start.Line) : t.Date.Range.End.Offset-lineStartOffset(text, t.Date.Range.Start.Line)], "date"})
 		pd := t.Payee
 		if pd == "" {
 			pd = t.Description
@@ -163,16 +158,16 @@ func c08Run(c c08Case) (string, error) {
 		if pd != "" {
 			ln := lines[t.Range.Start.Line-1]
 			if i := strings.Index(ln, pd); i >= 0 {
-				els = append(els, el{t.Range.Start.Line, len([]rune(ln[:i])) + 1, pd, "payee"})
+				els = append(els, el{t.Range.Start.Line, i, pd, "payee"})
 			}
 		}
 		for _, p := range t.Postings {
-			els = append(els, el{p.Account.Range.Start.Line, p.Account.Range.Start.Column, p.Account.Name, "account"})
+			els = append(els, el{p.Account.Range.Start.Line, inLine(p.Account.Range.Start.Line, p.Account.Range.Start.Offset), p.Account.Name, "account"})
 			if p.Amount != nil && p.Amount.Commodity.Symbol != "" {
-				els = append(els, el{p.Amount.Commodity.Range.Start.Line, p.Amount.Commodity.Range.Start.Column, p.Amount.Commodity.Symbol, "commodity"})
+				els = append(els, el{p.Amount.Commodity.Range.Start.Line, inLine(p.Amount.Commodity.Range.Start.Line, p.Amount.Commodity.Range.Start.Offset), p.Amount.Commodity.Symbol, "commodity"})
 			}
 			for _, g := range p.Tags {
-				els = append(els, el{g.Range.Start.Line, g.Range.Start.Column, g.Name, "tag"})
+				els = append(els, el{g.Range.Start.Line, inLine(g.Range.Start.Line, g.Range.Start.Offset), g.Name, "tag"})
 			}
 		}
 	}
@@ -219,11 +214,23 @@ func c08Run(c c08Case) (string, error) {
 			break
 		}
 		w := utf16Len(ln)
+		// when the line ends with the commodity of a posting's amount, the edit must replace exactly
+		// that fragment (the text typed so far in commodity context)
+		var frag *string
+		for _, t := range j.Transactions {
+			for _, p := range t.Postings {
+				if p.Amount != nil && p.Range.Start.Line == li+1 && p.Amount.Commodity.Position == ast.CommodityRight &&
+					p.Amount.Commodity.Symbol != "" && strings.HasSuffix(ln, " "+p.Amount.Commodity.Symbol) && p.Cost == nil && p.BalanceAssertion == nil {
+					sym := p.Amount.Commodity.Symbol
+					frag = &sym
+				}
+			}
+		}
 		cp, _ := srv.Completion(ctx, &protocol.CompletionParams{TextDocumentPositionParams: protocol.TextDocumentPositionParams{TextDocument: td, Position: protocol.Position{Line: uint32(li), Character: uint32(w)}}})
 		if cp != nil {
 			for _, it := range cp.Items {
 				if it.TextEdit != nil {
-					add(10, int64(li), int64(w), it.TextEdit.Range, nil, 0)
+					add(10, int64(li), int64(w), it.TextEdit.Range, frag, 0)
 					break
 				}
 			}
